@@ -682,7 +682,9 @@ class KRunUV(KRun):
 
     def hist(self, *a: Any) -> None:
         flags = {L: (sc.cancel_called, sc.shield) for L, sc in self.scope_objs.items()}
-        self.history.append((self.now(), 0, flags) + a)
+        self.history.append((self.now(), self.cycle_count, flags) + a)
+
+    realtime = True
 
     def run(self) -> "KRunUV":
         import uvloop
@@ -691,6 +693,16 @@ class KRunUV(KRun):
         self.loop = lp  # type: ignore[assignment]
         self.t0 = lp.time()
         self.root_started = True
+        self.ticking = True
+
+        def tick() -> None:
+            # one ready callback per loop iteration: counts cycles (and keeps the loop from idling,
+            # which changes nothing but CPU use: timers still fire at their real deadlines)
+            self.cycle_count += 1
+            if self.ticking:
+                lp.call_soon(tick)
+
+        lp.call_soon(tick)
 
         async def guarded() -> None:
             task = asyncio.current_task()
@@ -717,6 +729,7 @@ class KRunUV(KRun):
             except BaseException:
                 pass
         finally:
+            self.ticking = False
             asyncio.set_event_loop(None)
             try:
                 lp.close()
